@@ -183,6 +183,26 @@ FN = {
                  ('C19', '__CPROVER_return_value == self->lineDetector.p->flag.v', 'reports the state of its own line'),
                  ('C19', '__CPROVER_old(self->lineDetector.p->flag.v) ==> __CPROVER_return_value', 'once tripped, always reported as tripped')],
         assigns=['self->lineDetector.p->flag.v']),
+    # the declared (non-indexed) line: one function-local static line, created on first use
+    r'TripWire::getLine': dict(
+        props='C19', inline_callees=True,
+        setup=LINE + ' if (vf_static_TripWire__getLine_staticline_guard) vf_static_TripWire__getLine_staticline.p = &vf_l;',
+        requires=['!vf_exc && (!vf_static_TripWire__getLine_staticline_guard || (vf_static_TripWire__getLine_staticline.p != 0 && SP_OK(vf_static_TripWire__getLine_staticline)))'],
+        ensures=[('C19', '!vf_exc && vf_ret->p != 0 && vf_ret->p == vf_static_TripWire__getLine_staticline.p && vf_static_TripWire__getLine_staticline_guard',
+                  'every call yields the one declared line (created untripped on first use)'),
+                 ('C19', '__CPROVER_old(vf_static_TripWire__getLine_staticline_guard) ==> vf_static_TripWire__getLine_staticline.p == __CPROVER_old(vf_static_TripWire__getLine_staticline.p)',
+                  'the declared line is never replaced'),
+                 ('C19', NOSTORE, 'obtaining the line trips nothing')],
+        assigns=['*vf_ret, vf_static_TripWire__getLine_staticline, vf_static_TripWire__getLine_staticline_guard, vf_exc',
+                 'vf_static_TripWire__getLine_staticline_guard && vf_static_TripWire__getLine_staticline.p != 0: *(vf_static_TripWire__getLine_staticline.p)']),
+    r'TripWire(Detector|Trigger)::ctor': dict(
+        props='C19', inline_callees=True,
+        setup=LINE + ' if (vf_static_TripWire__getLine_staticline_guard) vf_static_TripWire__getLine_staticline.p = &vf_l;',
+        requires=['!vf_exc && (!vf_static_TripWire__getLine_staticline_guard || (vf_static_TripWire__getLine_staticline.p != 0 && SP_OK(vf_static_TripWire__getLine_staticline)))'],
+        ensures=[('C19', '!vf_exc && vf_static_TripWire__getLine_staticline_guard && vf_static_TripWire__getLine_staticline.p != 0', 'the default constructor attaches to the declared line'),
+                 ('C19', NOSTORE, 'constructing trips nothing')],
+        assigns=['*self, vf_static_TripWire__getLine_staticline, vf_static_TripWire__getLine_staticline_guard, vf_exc',
+                 'vf_static_TripWire__getLine_staticline_guard && vf_static_TripWire__getLine_staticline.p != 0: *(vf_static_TripWire__getLine_staticline.p)']),
     r'make_tripline': dict(
         props='C19',
         requires=['!vf_exc'],
